@@ -46,8 +46,8 @@ Fixpoint equiv (a b : val) {struct a} : bool :=
              | None => false
              end && go r
          end) m
-  | VDig a e s n v, VDig a' e' s' n' v' =>
-      N.eqb a a' && N.eqb e e' && path_eqb s s' && String.eqb n n' && equiv v v'
+  | VDig a c e s n v, VDig a' c' e' s' n' v' =>
+      N.eqb a a' && N.eqb c c' && N.eqb e e' && path_eqb s s' && String.eqb n n' && equiv v v'
   | VNull, VNull => true
   | VBool x, VBool y => Bool.eqb x y
   | VNum x, VNum y => Z.eqb x y
@@ -56,10 +56,10 @@ Fixpoint equiv (a b : val) {struct a} : bool :=
   end.
 
 (* forget the salt symbols and the decoys (their number is drawn at random by the issuer) *)
-Definition is_decoy (v : val) : bool := match v with VDig _ e _ _ _ => N.eqb e 0 | _ => false end.
+Definition is_decoy (v : val) : bool := match v with VDig _ _ e _ _ _ => N.eqb e 0 | _ => false end.
 Fixpoint erase (v : val) {struct v} : val :=
   match v with
-  | VDig a e _ n x => VDig a e [] n (erase x)
+  | VDig a c e _ n x => VDig a c e [] n (erase x)
   | VArr l => VArr ((fix go (l : list val) : list val :=
                        match l with [] => [] | x :: r => if is_decoy x then go r else erase x :: go r end) l)
   | VObj m => VObj ((fix go (m : list (string * val)) : list (string * val) :=
@@ -77,7 +77,7 @@ Fixpoint null_sd (v : val) {struct v} : val :=
                            (k, if String.eqb k SD then match x with VArr [] => VNull | _ => null_sd x end else null_sd x) :: go r
                        end) m)
   | VArr l => VArr ((fix go (l : list val) : list val := match l with [] => [] | x :: r => null_sd x :: go r end) l)
-  | VDig a e s n x => VDig a e s n (null_sd x)
+  | VDig a c e s n x => VDig a c e s n (null_sd x)
   | _ => v
   end.
 
